@@ -103,7 +103,16 @@ Times == {"valid", "expired", "notyet"}
 \* that merely bears the root's name / signed by its own key.  It does not chain to the pool.
 TwinRels == {"twin_otherca", "twin_self"}
 Chains == (Rels \X Times) \cup (TwinRels \X {"valid"})
-ChainOK(rel, time) == rel = "root" /\ time = "valid"
+\* device certificates that went through the lenient parser: issued by an RSA root of the pool under the algorithm LABEL
+\* dlab with a signature made under the SCHEME dsch; the certificate chains only if the signature verifies under the
+\* scheme its label names (GoodRels); a label that names another scheme / hash than the one used does not (MisRels)
+GoodRels == {"root", "root_rsa", "root_pss"}         \* ECDSA root (certificate value), RSA root PKCS#1 v1.5, RSA root PSS
+MisRels == {"root_mis_pss_p1",    \* label RSASSA-PSS(SHA-256), signature PKCS#1 v1.5 SHA-256
+            "root_mis_p1_pss",    \* label sha256WithRSAEncryption, signature RSASSA-PSS
+            "root_mis_hash",      \* label sha256WithRSAEncryption, signature PKCS#1 v1.5 over the SHA-384 digest
+            "root_mis_ecdsa"}     \* label ecdsa-with-SHA256, signature PKCS#1 v1.5 SHA-256 by the RSA root
+CrossRels == GoodRels \cup MisRels \cup {"otherca"}
+ChainOK(rel, time) == rel \in GoodRels /\ time = "valid"
 Labels == 0..16       \* crypto/x509.SignatureAlgorithm: 0 unknown, 1 MD2-RSA, 2 MD5-RSA, 3..6 SHA1/256/384/512-RSA,
                       \* 7,8 DSA-SHA1/256, 9..12 ECDSA-SHA1/256/384/512, 13..15 RSA-PSS, 16 Ed25519
 RSALabels == 3..6
@@ -112,6 +121,20 @@ LabelHash(a) == CASE a \in {3, 7, 9} -> "sha1" [] a \in {4, 8, 10} -> "sha256" [
 \* labels 7..12 name a SHA digest but not RSA; the statement lists them neither among the accepted nor among
 \* the rejected ones (MD2/MD5/unsupported), so acceptance of a VALID encoded message under them is left open
 OpenLabels == 7..12
+\* the algorithm LABEL as it is ENCODED in a certificate (an AlgorithmIdentifier) and the x509.SignatureAlgorithm it denotes;
+\* it is a dimension of its own: which SCHEME the signature value was made under (sch) is independent of it
+LabelEncs == {"md2-rsa", "md5-rsa", "sha1-rsa", "sha1-rsa-iso", "sha256-rsa", "sha384-rsa", "sha512-rsa",
+              "dsa-sha1", "dsa-sha256", "ecdsa-sha1", "ecdsa-sha256", "ecdsa-sha384", "ecdsa-sha512",
+              "pss-sha256", "pss-sha384", "pss-sha512", "pss-noparams", "pss-badsalt", "ed25519", "unknown"}
+LabelDenotes(lab) == CASE lab = "md2-rsa" -> 1 [] lab = "md5-rsa" -> 2 [] lab \in {"sha1-rsa", "sha1-rsa-iso"} -> 3
+                       [] lab = "sha256-rsa" -> 4 [] lab = "sha384-rsa" -> 5 [] lab = "sha512-rsa" -> 6
+                       [] lab = "dsa-sha1" -> 7 [] lab = "dsa-sha256" -> 8 [] lab = "ecdsa-sha1" -> 9 [] lab = "ecdsa-sha256" -> 10
+                       [] lab = "ecdsa-sha384" -> 11 [] lab = "ecdsa-sha512" -> 12
+                       [] lab = "pss-sha256" -> 13 [] lab = "pss-sha384" -> 14 [] lab = "pss-sha512" -> 15
+                       [] lab = "ed25519" -> 16 [] OTHER -> 0      \* malformed PSS parameters denote nothing
+\* signature schemes an RSA device key can be used under: PKCS#1 v1.5 (an encoded message as above), RSASSA-PSS
+\* (its encoded message is not of the 00 01 FF.. form: shape "random"), random octets
+Schemes == {"pkcs1", "pss", "junk"}
 KeyTypes06 == {"rsa", "p256", "p384", "ed25519"}
 SigForms == {"canon", "lead0", "plusN", "honest", "junk"}
    \* canon: the k-octet representative; lead0 / plusN: the same residue written with leading zero octets / plus N
@@ -119,19 +142,23 @@ SigForms == {"canon", "lead0", "plusN", "honest", "junk"}
 
 \* the acceptance predicate of the statement (labels SHA-x with RSA) ...
 Accept(c) == /\ ChainOK(c.rel, c.time) /\ c.kt = "rsa" /\ c.alg \in RSALabels
-             /\ ValidEM(c.em, LabelHash(c.alg))
+             /\ c.sch = "pkcs1" /\ ValidEM(c.em, LabelHash(c.alg))     \* the signature verifies under the label's scheme
 \* ... what may be accepted at most (open labels included) ...
 Permitted(c) == /\ ChainOK(c.rel, c.time) /\ c.kt = "rsa" /\ c.alg \in (RSALabels \cup OpenLabels)
-                /\ ValidEM(c.em, LabelHash(c.alg))
+                /\ c.sch = "pkcs1" /\ ValidEM(c.em, LabelHash(c.alg))
 \* ... and what must be accepted
 Required(c) == Accept(c) /\ c.sf = "canon"
 C06_Step(c, r) == (r.acc => Permitted(c)) /\ (Required(c) => r.acc)
 \* the precise design (what the code is understood to do); a difference that C06_Step allows is SPEC-DRIFT
-Design06(c) == [acc |-> Permitted(c), pan |-> FALSE]
+\* (the lenient parser knows no DSA object identifiers: a DSA label read from DER denotes nothing for it)
+Design06(c) == [acc |-> Permitted(c) /\ ~(c.via = "parsed" /\ c.lab \in {"dsa-sha1", "dsa-sha256"}), pan |-> FALSE]
 Strict06(c, r) == r.acc = Design06(c).acc /\ r.pan = FALSE
 
 \* every clause of the statement follows from acceptance
-Clauses(c) == /\ c.rel = "root" /\ c.time = "valid" /\ c.rel \notin TwinRels
+Clauses(c) == /\ c.rel \in GoodRels /\ c.time = "valid" /\ c.rel \notin TwinRels /\ c.rel \notin MisRels
+              /\ c.sch = "pkcs1"
+              /\ (c.via = "parsed" => (c.lab \notin {"pss-sha256", "pss-sha384", "pss-sha512", "pss-noparams", "pss-badsalt", "md2-rsa", "md5-rsa", "ed25519", "unknown"}
+                                      /\ LabelDenotes(c.lab) = c.alg))
               /\ c.kt = "rsa"
               /\ c.alg \notin {0, 1, 2, 13, 14, 15, 16}
               /\ c.em.shape = "full" /\ c.em.lead = "00" /\ c.em.bt = "01" /\ c.em.sep = "00"
@@ -148,11 +175,24 @@ vars == <<c, r, hist>>
 Case06(kt, alg, rel, time, sf, h0, n0, mut, em) ==
     [p |-> "C06", kt |-> kt, alg |-> alg, rel |-> rel, time |-> time, sf |-> sf,
      h0 |-> h0, n0 |-> n0,      \* the (hash, layout) the encoded message was built for before mutation
-     mut |-> mut, em |-> em]
+     mut |-> mut, em |-> em,
+     via |-> "value",           \* "value": an x509.Certificate value with the label set directly; "parsed": DER through the lenient parser
+     lab |-> "",                \* the encoded label (via = "parsed"); alg is what it denotes
+     sch |-> IF kt = "rsa" THEN "pkcs1" ELSE "other"]
+RandomEM == EMRec("random", "00", "00", "00", "00", "00", "00", <<>>, -1, "none", 0, "00")
+\* label x scheme cross product: a slot certificate LABELLED lab whose signature value was made by the RSA device key
+\* under scheme sch with hash hs, presented with a device certificate of chain class rel, everything parsed from DER
+Cross06(lab, sch, hs, rel) ==
+    [Case06("rsa", LabelDenotes(lab), rel, "valid", "canon", hs, TRUE, "none",
+            IF sch = "pkcs1" THEN GoodEM(hs, TRUE) ELSE RandomEM)
+       EXCEPT !.via = "parsed", !.lab = lab, !.sch = sch]
 Init06 == /\ \/ \E h \in AllH, n \in BOOLEAN, a \in Labels, ch \in Chains :
                    c = Case06("rsa", a, ch[1], ch[2], "canon", h, n, "none", GoodEM(h, n))
              \/ \E kt \in KeyTypes06 \ {"rsa"}, a \in Labels, ch \in Chains, sf \in {"honest", "junk"} :
                    c = Case06(kt, a, ch[1], ch[2], sf, "none", FALSE, "none", NoEM)
+             \/ \E lab \in LabelEncs, sch \in Schemes, hs \in Hashes \cup {"md5"}, rel \in CrossRels :
+                   /\ (sch = "pss" => hs \in {"sha256", "sha384", "sha512"}) /\ (sch = "junk" => hs = "sha256")
+                   /\ c = Cross06(lab, sch, hs, rel)
           /\ r = Design06(c)
           /\ hist = IF c.rel \in TwinRels THEN "used" ELSE "fresh"   \* a twin presupposes the genuine one attested before
 \* in which contexts the mutation operators are applied: everywhere (thorough tier) or where at most one of chain
@@ -160,7 +200,7 @@ Init06 == /\ \/ \E h \in AllH, n \in BOOLEAN, a \in Labels, ch \in Chains :
 CONSTANT MutCtx(_)
 MutCtxAll(x) == TRUE
 MutCtxQuick(x) == x.rel = "root" \/ x.time = "valid"
-Mutable == c.mut = "none" /\ c.kt = "rsa" /\ c.h0 \in Hashes /\ hist = "fresh" /\ MutCtx(c)
+Mutable == c.mut = "none" /\ c.kt = "rsa" /\ c.via = "value" /\ c.h0 \in Hashes /\ hist = "fresh" /\ MutCtx(c)
 Put(name, em) == /\ c' = [c EXCEPT !.mut = name, !.em = em]
                  /\ r' = Design06(c')
                  /\ UNCHANGED hist
@@ -177,7 +217,7 @@ Reshape(s)   == Mutable /\ s # "full" /\ Put("shape", [c.em EXCEPT !.shape = s])
 PfxOther(h, n) == Mutable /\ h # c.h0 /\ Put("pfxother", [c.em EXCEPT !.pfx = DI(h, n)])
 DgOther(h)   == Mutable /\ h # c.h0 /\ Put("dgother", [c.em EXCEPT !.dgh = h])
 \* the same call on an Attestor that has attested other certificates before: same verdict
-Use06 == c.mut = "none" /\ hist = "fresh" /\ hist' = "used" /\ UNCHANGED <<c, r>>
+Use06 == c.mut = "none" /\ c.via = "value" /\ hist = "fresh" /\ hist' = "used" /\ UNCHANGED <<c, r>>
 Next06 == \/ \E v \in ByteClass : MutLead(v) \/ MutBT(v) \/ MutPSf(v) \/ MutPSm(v) \/ MutPSl(v) \/ MutSep(v)
           \/ \E j \in 1..19, v \in ByteClass : MutPfx(j, v)
           \/ \E j \in 1..64, v \in ByteClass : MutDg(j, v)
@@ -191,12 +231,14 @@ Spec06 == Init06 /\ [][Next06]_vars
 P_C06 == [](C06_Step(c, r))
 Inv06_Clauses == Permitted(c) => Clauses(c)
 Inv06_Unique == Unique(c.em)
-Inv06_Base == (c.mut = "none" /\ c.kt = "rsa") => (ValidFor(c.em, c.h0, c.n0) /\ (c.h0 \in Hashes => ValidEM(c.em, c.h0)))
+Inv06_Base == (c.mut = "none" /\ c.kt = "rsa" /\ c.sch = "pkcs1") => (ValidFor(c.em, c.h0, c.n0) /\ (c.h0 \in Hashes => ValidEM(c.em, c.h0)))
 \* every single mutation that changes the encoded message makes it invalid for every hash
 P_MutInvalid == [][(c'.em # c.em) => \A h \in AllH, n \in BOOLEAN : ~ValidFor(c'.em, h, n)]_vars
 \* and, conversely, a mutation operator that writes the octet already there changes nothing
 P_NoopSame == [][(c'.em = c.em) => r'.acc = r.acc]_vars
 \* history independence: the same call gets the same verdict whatever the Attestor did before
+\* label and scheme are independent dimensions; acceptance needs both to name PKCS#1 v1.5 with the same SHA digest
+Inv06_LabelScheme == (c.via = "parsed" /\ r.acc) => (c.sch = "pkcs1" /\ c.h0 = LabelHash(c.alg) /\ c.alg \in 3..12 /\ c.rel \in GoodRels)
 P_Hist == [][(c' = c) => (r' = r)]_vars
 
 (***************************************************************************)
